@@ -250,7 +250,33 @@ def fork_calls(snap: Snap, ctx) -> list[tuple[str, dict]]:
     out: list[tuple[str, dict]] = []
     dev = ctx.sut.device
     max_seq = dev.max_sequence_duration
-    if max_seq is None or snap.parametrized or snap.flags["measured"]:
+    if snap.parametrized or snap.flags["measured"]:
+        return out
+    # align() pads its channels one after the other: with [Y, Z, L], L made long
+    # enough that Z's padding exceeds Z's max_duration, Y is padded before Z refuses
+    live = [(n, cs) for n, cs in snap.channels.items() if cs.slots]
+    if len(live) >= 3:
+        for zn, zs in live:
+            zmax = zs.obj.max_duration
+            if zmax is None or zmax > 5000:
+                continue
+            others = [(n, cs) for n, cs in live if n != zn]
+            ln, ls = max(others, key=lambda t: t[1].end)
+            lch = ls.obj
+            need = zs.end + zmax + 2 * lch.clock_period - ls.end
+            need = max(need, lch.min_duration, 1)
+            if need % lch.clock_period:
+                need += lch.clock_period - need % lch.clock_period
+            if lch.max_duration is not None and need > lch.max_duration:
+                continue
+            if max_seq is not None and ls.end + need > max_seq:
+                continue
+            ys = [n for n, cs in others if n != ln]
+            if not ys:
+                continue
+            out.append(("fork/align-pad-above-max", {"op": "fork", "prelude": [{"op": "delay", "d": need, "ch": ln}], "bad": {"op": "align", "chs": [ys[0], zn, ln]}}))
+            break
+    if max_seq is None:
         return out
     qids = ctx.qids
     for n, cs in snap.channels.items():
